@@ -37,6 +37,10 @@ type Slice struct {
 	cells []*Cell
 	n     int
 	isNil bool
+	// capT != nil: the capacity is symbolic and only known to be >= len(cells) (a make with a symbolic
+	// capacity, "at least K spare slots" case); cap() answers capT, growing beyond the modelled window
+	// is unsupported (never guessed)
+	capT *Term
 }
 
 // Iface is an interface value; t == nil is the nil interface.
